@@ -516,6 +516,34 @@ def r_commit_rule(ctx):
             ctx.ok(inst, f.loc(st), 'candidate accepted only behind majority test and entry-term == currentTerm (%d defining site(s))' % n_checked)
         elif not n_checked:
             ctx.unproven(inst, f.loc(st), 'no accepting assignment of the candidate found')
+    # the written value never lies below the old commit index: every definition chain starts at the commit index and only adds
+    def only_grows(name, seen=()):
+        if name in seen:
+            return True
+        defs = [d for d in U.walk_no_nested(f.node) if (isinstance(d, ast.Assign) and any(isinstance(t, ast.Name) and t.id == name for t in d.targets))
+                or (isinstance(d, ast.AugAssign) and isinstance(d.target, ast.Name) and d.target.id == name)]
+        if not defs:
+            return False
+        for d in defs:
+            if isinstance(d, ast.AugAssign):
+                if not (isinstance(d.op, ast.Add) and isinstance(d.value, ast.Constant) and isinstance(d.value.value, int) and d.value.value >= 0):
+                    return False
+            elif P.self_attr(d.value, f.self_name) == R.commitIndex:
+                continue
+            elif isinstance(d.value, ast.Name) and only_grows(d.value.id, seen + (name,)):
+                continue
+            else:
+                return False
+        return True
+    for st, kind in writes:
+        if isinstance(st.value, ast.Name):
+            inst = 'leader commit write `%s` never lowers the commit index' % unparse(st)
+            ctx.tick()
+            if only_grows(st.value.id):
+                ctx.ok(inst, f.loc(st), 'every definition chain of `%s` starts at the commit index and only adds non-negative constants' % st.value.id)
+            else:
+                ctx.violation('%s:leader-commit-may-decrease' % f.qualname, f.loc(st), 'the value written to the commit index (`%s`) is not derived from the old commit index by increments only: '
+                              'the commit index can move backwards' % st.value.id, instance=inst)
     # counting condition compares matchIndex[v] >= candidate
     from .election import _counter_info
     for mf, cmpn, a, counter, th, lc in majority_sites(ctx):
@@ -951,3 +979,65 @@ def r_sender_prev_adjacent(ctx):
             ctx.violation('%s:prev-position-not-adjacent' % f.qualname, f.loc(c), '; '.join(problems) or 'previous position is not next index - 1', instance=inst)
     ctx.require(n_sites >= 1, 'no append_entries message with prevLogIdx')
     ctx.expect_min(1)
+
+
+@rule('R-applied-monotone', 'while a node runs its applied index only grows: it is incremented by the apply loop, set from a dump only '
+                            'once at start-up, and a snapshot installed from the leader must not rewind it (nor discard log entries '
+                            'beyond the snapshot position)')
+def r_applied_monotone(ctx):
+    P, R = ctx.P, ctx.R
+    loader = loader_func(ctx)
+    n_w = 0
+    for f in P.methods_of(R.S):
+        if f.name == '__init__':
+            continue
+        for st, kind in U.assigns_to_attr(P, f, R.lastApplied):
+            n_w += 1
+            inst = '%s: `%s`' % (f.qualname, unparse(st))
+            if U.increment_amount(P, f, st, R.lastApplied) is not None:
+                ctx.ok(inst, f.loc(st), 'increment')
+                continue
+            if f is not loader:
+                ctx.violation('%s:applied-index-overwritten' % f.qualname, f.loc(st), 'the applied index is overwritten outside the apply loop and the dump loader', instance=inst)
+                continue
+            ex = U.explorer(ctx, f)
+            cfg = ex.cfg
+            n = U.node_containing(cfg, st)
+            old = ex.tb.term(U.parse_expr('self.%s' % R.lastApplied))
+            # per call site of the loader
+            for g, call in P.callers_of(loader):
+                kw = dict((k.arg, k.value) for k in call.keywords)
+                v = kw.get('clearJournal', call.args[0] if call.args else None)
+                install = isinstance(v, ast.Constant) and v.value is True
+                site = '%s (clearJournal=%s)' % (g.qualname, unparse(v) if v is not None else '?')
+                inst2 = 'applied index set from a dump, call site %s' % site
+                init = [ex.tb.literal(U.parse_expr('clearJournal'), install)]
+                res = ex.run(init=frozenset(init))
+                grows = bool(res.facts_at(n.id)) and all(oracle.entails(fs, ('le', old, ex.tb.term(st.value))) for fs in res.facts_at(n.id))
+                ctx.tick()
+                if grows:
+                    ctx.ok(inst2, f.loc(st), 'new value >= old value entailed')
+                elif not install:
+                    # start-up: executed once, before anything was applied (one-shot flag in the caller)
+                    gex = U.explorer(ctx, g)
+                    gres = U.full_run(ctx, g)
+                    gn = U.node_containing(gex.cfg, call)
+                    flags = [l for fs in gres.facts_at(gn.id) for l in fs if l[0] == 'truthy' and l[2] and l[1].key.startswith('self.')]
+                    oneshot = False
+                    for l in flags:
+                        a = l[1].key[5:]
+                        resets = [s2 for s2, k2 in U.assigns_to_attr(P, g, a) if isinstance(s2.value, ast.Constant) and s2.value.value is False]
+                        sets = [s2 for h2 in P.methods_of(R.S) if h2.name != '__init__' for s2, k2 in U.assigns_to_attr(P, h2, a) if not (isinstance(s2.value, ast.Constant) and s2.value.value is False)]
+                        if resets and not sets:
+                            oneshot = True
+                    if oneshot:
+                        ctx.ok(inst2, g.loc(call), 'start-up load under a one-shot flag (nothing applied yet)')
+                    else:
+                        ctx.violation('%s:dump-reloaded-while-running' % g.qualname, g.loc(call), 'the dump can be loaded again while the node runs, rewinding the applied index', instance=inst2)
+                else:
+                    ctx.violation('%s:snapshot-install-rewinds-applied-index' % loader.qualname, f.loc(st),
+                                  'a snapshot installed from the leader sets the applied index to the snapshot position and replaces the log by the two entries of the snapshot '
+                                  'without comparing with what this node already applied / stored: a late or repeated snapshot of an older position rewinds the applied index and '
+                                  'discards acknowledged entries beyond it (call site %s)' % site, instance=inst2)
+    ctx.require(n_w >= 2, 'writes of the applied index not found')
+    ctx.expect_min(2)
